@@ -211,12 +211,15 @@ def real_render(jinja2, ts, env=None, history=False):
             data[var] = [env.get_template(t[1]) if t[0] == "o" else t[1] for t in targets]
         if history:
             # an earlier render of the same environment (cached templates, cached default modules) with other data
+            # (the template-level globals keep their values: a default module cached before a later
+            # get_template(name, globals=...) update is not refreshed - cache freshness, not C05's visibility rule)
             try:
                 d0 = {k: (v if k.startswith(("tobj_", "lst_")) else "OLD" + str(k)) for k, v in data.items()}
                 d0.update({k: "OLD" + k for k in ("a", "b", "c", "d", "x", "y", "i", "mg")})
                 env.get_template(ts["main"]).render(d0)
             except Exception:  # noqa
                 pass
+            preload(env, ts)
         return "O " + enc_str(env.get_template(ts["main"]).render(data))
     except BaseException as e:  # noqa
         if isinstance(e, (KeyboardInterrupt, SystemExit)):
@@ -251,7 +254,7 @@ def real_module(jinja2, ts, name, env=None):
 
 # ---------------------------------------------------------------- generator
 class IGen:
-    def __init__(self, rng, own_globals=0.15, shadow=0.1):
+    def __init__(self, rng, own_globals=0.25, shadow=0.1):
         self.r = rng
         self.own_globals = own_globals
         self.shadow = shadow
@@ -500,6 +503,17 @@ def directed_sets():
         out.append({"templates": {"main": {"globals": {}, "body": use}, "t1": chi, "t2": par,
                                   "t3": {"globals": {}, "body": [("s", "d", ("c", "3"))]}},
                     "main": "main", "data": {"a": "DA"}, "env_globals": {"g": "G"}, "objects": []})
+    # one helper imported (without context) by several importers whose template-level globals have the same NAMES and
+    # different VALUES, in one render and after an earlier render
+    helper = {"globals": {}, "body": [("s", "c", ("v", "tg")), ("m", "f1", "hf")]}
+    for how in ([("I", ("n", "t3"), "m1", None), ("a", "m1", "c")], [("F", ("n", "t3"), [("c", "q1")], None), ("p", "q1")]):
+        for wc in (None, False, True):
+            body = [("i", [("n", "t1")], False, wc, False), ("o", "|"), ("i", [("n", "t2")], False, wc, False), ("o", "|"),
+                    ("i", [("n", "t1")], False, wc, False)]
+            out.append({"templates": {"main": {"globals": {"tg": "TGm"}, "body": how + [("o", "/")] + body},
+                                      "t1": {"globals": {"tg": "TG1"}, "body": how},
+                                      "t2": {"globals": {"tg": "TG2"}, "body": how}, "t3": helper},
+                        "main": "main", "data": {}, "env_globals": {"g": "G"}, "objects": []})
     # include lists / partially cached candidates: t2 is loaded first (by an include or an import), then a
     # list [t1, t2] / [nope, t1, t2] must still select t1
     for first in ([("i", [("n", "t2")], False, None, False)], [("I", ("n", "t2"), "m2", None)],
